@@ -264,16 +264,26 @@ size_t varintRLEGetRunCount(const uint8_t *src, size_t encodedSize) {
     size_t runs = 0;
 
     while (ptr < end) {
-        size_t runLen;
+        /* Bounded reads: never look at or beyond 'end'.  A run cut short by
+         * 'end' (varintTaggedGet returns 0) is not counted. */
+        uint64_t runLen;
         uint64_t value;
-        size_t consumed = varintRLEDecodeRun(ptr, &runLen, &value);
+        size_t avail = (size_t)(end - ptr);
+        varintWidth lenWidth =
+            varintTaggedGet(ptr, avail > 9 ? 9 : (int32_t)avail, &runLen);
+        if (lenWidth == 0 || runLen == 0) {
+            break;
+        }
 
-        if (runLen == 0 || consumed == 0) {
+        avail -= lenWidth;
+        varintWidth valWidth = varintTaggedGet(
+            ptr + lenWidth, avail > 9 ? 9 : (int32_t)avail, &value);
+        if (valWidth == 0) {
             break;
         }
 
         runs++;
-        ptr += consumed;
+        ptr += lenWidth + valWidth;
     }
 
     return runs;
